@@ -372,30 +372,40 @@ def mkDCH (n : Nat) (one two : Tensor) (c : GQ) : Except Err DCH :=
     let two' := (List.range n).foldl (fun acc i => tset [i, i] 0 acc) two
     .ok ⟨n, one', two', c⟩
 
+/-- the body of the loop of `get_diagonal_coulomb_hamiltonian` over the normal-ordered terms -/
+def dchStep (tol : Rat) (ignore : Bool) (st : GQ × Tensor × Tensor) (tc : Term × GQ) :
+    Except Err (GQ × Tensor × Tensor) :=
+  if GQ.isSmall tol tc.2 then .ok st
+  else match tc.1 with
+  | [] => .ok (tc.2, st.2.1, st.2.2)
+  | [(p, 1), (q, 0)] => .ok (st.1, tset [p, q] tc.2 st.2.1, st.2.2)
+  | [(p, 1), (q, 1), (r, 0), (s, 0)] =>
+    if p = r ∧ q = s then
+      -- abs(imag(c)) > tol
+      if tc.2.im * tc.2.im > tol * tol then Except.error Err.valueError
+      else
+        .ok (st.1, st.2.1, tset [q, p] ⟨-(1/2) * tc.2.re, 0⟩ (tset [p, q] ⟨-(1/2) * tc.2.re, 0⟩ st.2.2))
+    else if ignore then .ok st else Except.error Err.valueError
+  | _ => if ignore then .ok st else Except.error Err.valueError
+
+/-- the scatter loop: `(constant, one_body, two_body)` -/
+def dchScatter (tol : Rat) (ignore : Bool) (n : Nat) (no : Op) : Except Err (GQ × Tensor × Tensor) :=
+  no.foldlM (dchStep tol ignore) (0, tzeros n 2, tzeros n 2)
+
+/-- exact regime of `get_diagonal_coulomb_hamiltonian`: the two-body coefficients of the normal-ordered
+operator are real (the source drops an imaginary part below the tolerance) -/
+def dchExact (tol : Rat) (A : Op) : Bool :=
+  (normalOrdered tol A).all fun e =>
+    match e.1 with
+    | [(_, 1), (_, 1), (_, 0), (_, 0)] => e.2.im == 0
+    | _ => true
+
 /-- `get_diagonal_coulomb_hamiltonian` -/
 def getDiagonalCoulomb (tol : Rat) (A : Op) (n? : Option Nat) (ignore : Bool) : Except Err DCH := do
   let n ← resolveN A n?
-  let no := normalOrdered tol A
-  let init : GQ × Tensor × Tensor := (0, tzeros n 2, tzeros n 2)
-  let r ← no.foldlM (fun (st : GQ × Tensor × Tensor) (tc : Term × GQ) =>
-    let (term, c) := tc
-    let (const, one, two) := st
-    if GQ.isSmall tol c then .ok st
-    else match term with
-    | [] => .ok (c, one, two)
-    | [(p, 1), (q, 0)] => .ok (const, tset [p, q] c one, two)
-    | [(p, 1), (q, 1), (r, 0), (s, 0)] =>
-      if p = r ∧ q = s then
-        -- abs(imag(c)) > tol
-        if c.im * c.im > tol * tol then Except.error Err.valueError
-        else
-          let v : GQ := ⟨-(1/2) * c.re, 0⟩
-          .ok (const, one, tset [q, p] v (tset [p, q] v two))
-      else if ignore then .ok st else Except.error Err.valueError
-    | _ => if ignore then .ok st else Except.error Err.valueError) init
-  let (const, one, two) := r
-  if !isHermitianMat tol n one then .error .valueError
-  else mkDCH n one two const
+  let r ← dchScatter tol ignore n (normalOrdered tol A)
+  if !isHermitianMat tol n r.2.1 then .error .valueError
+  else mkDCH n r.2.1 r.2.2 r.1
 
 /-! ### opconversions/conversions.py -/
 
